@@ -181,6 +181,21 @@ func drawParseCase(rt *rapid.T, us []*parseUnit, max, nMut, sentenceBias int) Pa
 	return u.newCase(in.Toks, in.Tree)
 }
 
+// drawAimed: one case in four aims at a uniformly drawn entry of the
+// reference automaton's tables (followed by a random tail), the others are
+// sentences / mutated sentences / random sequences.
+func drawAimed(rt *rapid.T, us []*parseUnit, max, nMut, sentenceBias int) ParseCase {
+	if rapid.IntRange(0, 3).Draw(rt, "aimAtEntry") == 0 {
+		u := us[rapid.IntRange(0, len(us)-1).Draw(rt, "grammar")]
+		if u.lr != nil {
+			if toks, ok := aimAtEntry(rt, u.lr, u.c, max, false); ok {
+				return u.newCase(toks, nil)
+			}
+		}
+	}
+	return drawParseCase(rt, us, max, nMut, sentenceBias)
+}
+
 func sane(u *parseUnit, c ParseCase, o subj.ParseObs) string {
 	if o.Panic != "" {
 		return fmt.Sprintf("grammar:\n%s\ninput %v: Parse panicked: %s", u.src, c.Toks, firstLines(o.Panic, 12))
@@ -201,9 +216,9 @@ func firstLines(s string, n int) string {
 
 func init() {
 	table["C02"] = func(r *runner) {
-		us := parseUnits(r, false)
+		us := parseUnits(r, true)
 		mx := maxToks(r)
-		check(r, func(rt *rapid.T) ParseCase { return drawParseCase(rt, us, mx, 2, 45) },
+		check(r, func(rt *rapid.T) ParseCase { return drawAimed(rt, us, mx, 2, 45) },
 			func(c ParseCase) string { return evalC02(r, punitOf(us, c.Index), c) })
 	}
 	table["C03"] = func(r *runner) {
@@ -233,7 +248,7 @@ func init() {
 		}, func(c ParseCase) string { return evalC03(r, punitOf(us, c.Index), c) })
 	}
 	table["C06"] = func(r *runner) {
-		us := parseUnits(r, false)
+		us := parseUnits(r, true)
 		var ok []*parseUnit
 		for _, u := range us {
 			if u.allProductive && !u.hasErrAlt {
@@ -246,7 +261,7 @@ func init() {
 			r.t.Fatalf("INFRA: no reduced grammar in the batch")
 		}
 		mx := maxToks(r)
-		check(r, func(rt *rapid.T) ParseCase { return drawParseCase(rt, ok, mx, 2, 10) },
+		check(r, func(rt *rapid.T) ParseCase { return drawAimed(rt, ok, mx, 2, 10) },
 			func(c ParseCase) string { return evalC06(r, punitOf(us, c.Index), c) })
 	}
 	table["C05"] = func(r *runner) {
@@ -456,14 +471,23 @@ func evalC06(r *runner, u *parseUnit, c ParseCase) string {
 }
 
 // aimAtConflict builds an input that reaches a conflicted (state, terminal)
-// entry of the reference automaton: shortest symbol path to the state, each
-// nonterminal expanded by a minimal derivation, then the terminal and a tail.
+// entry of the reference automaton.
 func aimAtConflict(rt *rapid.T, u *parseUnit, max int) ([]int, bool) {
+	return aimAtEntry(rt, u.lr, u.c, max, true)
+}
+
+// aimAtEntry builds an input that consults one (state, terminal) entry of the
+// reference automaton: a shortest symbol path to the state, each nonterminal
+// on it expanded by a minimal derivation, then the terminal and a random tail.
+// With onlyConflicted the entry is drawn among the conflicted ones. Drawing
+// entries uniformly makes every entry of a grammar's tables get exercised,
+// however rarely random sentences would reach it.
+func aimAtEntry(rt *rapid.T, lr *cfg.LR1, c *cfg.CFG, max int, onlyConflicted bool) ([]int, bool) {
 	type ent struct{ st, t int }
 	var ents []ent
-	for si, st := range u.lr.States {
+	for si, st := range lr.States {
 		for t, as := range st.Acts {
-			if len(as) > 1 {
+			if len(as) > 1 || (!onlyConflicted && len(as) == 1) {
 				ents = append(ents, ent{si, t})
 			}
 		}
@@ -477,8 +501,7 @@ func aimAtConflict(rt *rapid.T, u *parseUnit, max int) ([]int, bool) {
 		}
 		return ents[i].t < ents[j].t
 	})
-	e := ents[rapid.IntRange(0, len(ents)-1).Draw(rt, "conflictEntry")]
-	// BFS over goto edges
+	e := ents[rapid.IntRange(0, len(ents)-1).Draw(rt, "tableEntry")]
 	type back struct{ from, sym int }
 	prev := map[int]back{}
 	visited := map[int]bool{0: true}
@@ -487,12 +510,12 @@ func aimAtConflict(rt *rapid.T, u *parseUnit, max int) ([]int, bool) {
 		s := queue[0]
 		queue = queue[1:]
 		var syms []int
-		for sym := range u.lr.States[s].Goto {
+		for sym := range lr.States[s].Goto {
 			syms = append(syms, sym)
 		}
 		sort.Ints(syms)
 		for _, sym := range syms {
-			n := u.lr.States[s].Goto[sym]
+			n := lr.States[s].Goto[sym]
 			if !visited[n] {
 				visited[n] = true
 				prev[n] = back{s, sym}
@@ -510,15 +533,15 @@ func aimAtConflict(rt *rapid.T, u *parseUnit, max int) ([]int, bool) {
 		s = p.from
 	}
 	var toks []int
-	full := cfg.NewDeriver(u.c, true)
+	full := cfg.NewDeriver(c, true)
 	for _, sym := range path {
-		if u.c.IsTerm(sym) {
-			if u.c.Terms[sym] == "error" {
+		if c.IsTerm(sym) {
+			if c.Terms[sym] == "error" {
 				return nil, false
 			}
 			toks = append(toks, sym)
 		} else {
-			y, ok := full.MinYield(u.c.NTIndex(sym))
+			y, ok := full.MinYield(c.NTIndex(sym))
 			if !ok {
 				return nil, false
 			}
@@ -526,14 +549,19 @@ func aimAtConflict(rt *rapid.T, u *parseUnit, max int) ([]int, bool) {
 		}
 	}
 	if e.t != cfg.EOF {
+		if c.Terms[e.t] == "error" {
+			return nil, false
+		}
 		toks = append(toks, e.t)
-		// random tail
 		n := rapid.IntRange(0, 3).Draw(rt, "tail")
 		for k := 0; k < n; k++ {
-			toks = append(toks, rapid.IntRange(1, len(u.c.Terms)-1).Draw(rt, "tailTok"))
+			x := rapid.IntRange(1, len(c.Terms)-1).Draw(rt, "tailTok")
+			if c.Terms[x] != "error" {
+				toks = append(toks, x)
+			}
 		}
 	}
-	if len(toks) > max*2 {
+	if len(toks) > max*3 {
 		return nil, false
 	}
 	return toks, true
